@@ -1359,14 +1359,18 @@ static int ksi_CalendarHashChain_verifyRightLinkCompatibility(const KSI_Calendar
 
 		/* Find the next right link of the calendar hash chain. */
 		for (; bi < KSI_HashChainLinkList_length(b->hashChain); ++bi) {
-			res = KSI_HashChainLinkList_elementAt(b->hashChain, bi, &bLink);
+			KSI_HashChainLink *tmpLink = NULL;
+
+			res = KSI_HashChainLinkList_elementAt(b->hashChain, bi, &tmpLink);
 			if (res != KSI_OK) goto cleanup;
-			if (bLink == NULL) {
+			if (tmpLink == NULL) {
 				res = KSI_INVALID_STATE;
 				goto cleanup;
 			}
 
-			if (!bLink->isLeft) {
+			if (!tmpLink->isLeft) {
+				/* Only a right link is a candidate for the comparison below. */
+				bLink = tmpLink;
 				/* We need to increment it here to be able to continue with the next link here
 				 * and afterwards below. */
 				++bi;
